@@ -10,7 +10,7 @@ for f in os.listdir(src):
     if f.endswith((".diff", ".md", ".txt")):
         shutil.copy(os.path.join(src, f), dst)
 log = open(os.environ.get("CONFIRM_LOG") or "/tmp/confirm_%s.log" % pid).read()
-m = re.search(r"RESULT (.*)", log)
+ms = re.findall(r"RESULT (.*)", log); m = re.match(r"(.*)", ms[-1]) if ms else None
 meta = {
     "property": pid, "breaks": sorted({e[0] for e in exp}), "origin": "independent sub-agent given only the property text and a scratch worktree",
     "needs_to_manifest": needs,
